@@ -13,7 +13,7 @@ PROP = dict(
          "dictionaries, three engines, thresholds 0..39 with 0..8 frequent, selections, breaks, Tab-cycled alternatives, "
          "API calls and option changes in between; plus scripted histories (run editor-c02-tab-overflow): two crossing user "
          "phrases with pairwise different characters, Tab pressed 0..4 times at the end of the buffer, the limit at or below "
-         "the length, then overflow by one more syllable / select(0) / Tab itself, or Enter / commit()), recomputed by the model from the implementation's own complete "
+         "the length, then overflow by one more syllable / select(0) / Tab itself, or Enter / commit(); and a second scripted family: a syllable whose only (user) word is forgotten while it is buffered, glued by Tab to a neighbour that has words, then the same commit routes), recomputed by the model from the implementation's own complete "
          "pre-state; distinct = distinct record text",
     trusted_base=["hook H1 (Editor::verif_snapshot) is read-only; the layout and conversion answers of each step are recorded "
                   "through wrapper objects installed through the public constructors",
@@ -77,7 +77,7 @@ MANIFEST = dict(
          "generated histories. Premise, not proved here: that the real engines are C03's model (C03's own correspondence). "
          "That editor histories reach only valid compositions with a word for every buffered syllable is C01's invariant, now "
          "connected: history_ledger keeps TilesAlong as a hypothesis, history_ledger_linked has none beyond C01's EnvOK and the "
-         "exclusion of C01's word-losing class Known (former F02/F03: no longer a crash, but the spelling shown for a word-less syllable has 1-4 characters; oracle_c02 counts a spelled syllable as one symbol: stats c02_commits_with_wordless_spelling) (jump_* on an open phrase list is included since C01 covers it); C03's engine "
+         "exclusion of C01's word-losing class Known (former F02/F03: no longer a crash, but the spelling shown for a word-less syllable has 1-4 characters; oracle_c02 counts a spelled syllable as one symbol, also when the engine has merged the spelling with a glued neighbour into one interval of several symbols - the text of every committed interval is dealt to its symbols, one character or the syllable's own spelling each, from the engine's answer recorded before anything was removed; for Enter / commit() / select() the allowance needs C01's word-less predicate on the state before: stats c02_commits_with_wordless_spelling, c02_wordless_spelling_inside_longer_interval; scripted regression histories for the glued shape in run editor-c02-tab-overflow) (jump_* on an open phrase list is included since C01 covers it); C03's engine "
          "theorems reach buffers of at most 128 symbols, beyond that the engine clause is assumed. Trusted: Lean kernel (standard axioms), the read-only snapshot hook, harness + compiled "
          "model driver. F29 (commit string outliving its key) was a genuine defect, repaired by fix commit 1c4da4f; "
          "reintroducing it is reported with a 3-step history. Resetting the chosen alternative before the pushed-out "
